@@ -303,6 +303,52 @@ pub fn generate_c03(g: &mut Gen, thorough: bool) {
             g.push(f.join("\t"), "oracle-macro-arguments-and-modifiers", true);
         }
     }
+    // macros whose body is a pipeline that starts with a stack operator: as steps of an enclosing pipeline they
+    // are pipelines, not stack operators, in both directions
+    {
+        let mut w = make_world(&mut g.rng, 1);
+        w.resources.push(("m:swap".to_string(), "push v_1 v_2 | pop v_1 | pop v_2".to_string()));
+        w.resources.push(("m:sw2".to_string(), "stack push=1,2 | stack pop=1,2".to_string()));
+        w.resources.push(("m:rot".to_string(), "stack push=1,2,3 | stack roll=3,1 | stack pop=3,2,1".to_string()));
+        w.resources.push(("m:pz".to_string(), "pop v_3 omit_fwd | push v_3 omit_inv | addone | pop v_3".to_string()));
+        let cores = ["m:swap", "m:sw2", "m:rot", "m:pz", "addone", "helmert x=10 y=20", "helmert z=2"];
+        for k in 0..(if thorough { 3000 } else { 300 }) {
+            let len = 2 + g.rng.below(3);
+            let at = g.rng.below(len);
+            let steps: Vec<StepSpec> = (0..len)
+                .map(|i| {
+                    let core = if i == at { cores[g.rng.below(4)] } else { cores[g.rng.below(7)] };
+                    let mut st = random_mods(&mut g.rng, core, true);
+                    if k % 2 == 0 {
+                        st.omit_fwd = false;
+                        st.omit_inv = false;
+                    }
+                    st
+                })
+                .collect();
+            let def = render_pipeline(&mut g.rng, &steps, k % 5 == 0);
+            let dir = if k % 3 == 0 { "F" } else { "I" };
+            let data = super::probe_data(2);
+            let mut f = vec!["OP".to_string()];
+            f.extend(ctx_fields("default", &w));
+            f.push(crate::wire::escape(&def));
+            f.push("both".to_string());
+            f.push(dir.to_string());
+            f.push(data.clone());
+            g.push(f.join("\t"), "macros-that-start-with-a-stack-operator", true);
+            let mut f = vec!["S_C03".to_string()];
+            f.extend(ctx_fields("default", &w));
+            f.push(crate::wire::escape(&def));
+            f.push(steps.len().to_string());
+            for s in &steps {
+                f.push(s.flags());
+                f.push(crate::wire::escape(&s.core));
+            }
+            f.push(dir.to_string());
+            f.push(data);
+            g.push(f.join("\t"), "oracle-macros-that-start-with-a-stack-operator", true);
+        }
+    }
     // a step next to its own inverse is still two steps: both run (roundoff and all), both are counted
     let w = make_world(&mut g.rng, 2);
     let data = crate::wire::data_of(&[[0.1, 0.7, 1e-3, 2000.3], [1.0 / 3.0, -2.0 / 7.0, 1e15 + 0.5, 1e-9]]);
